@@ -57,6 +57,8 @@ type Unit struct {
 	lits           map[string]Term
 	litVal         map[string]string // literal constant name -> its text
 	havocSeq       int
+	ifacesSeen     map[string]types.Type
+	typesSeen      map[string]types.Type
 	uncontracted   map[string]*ssa.Function // functions of the module called here that have no contract
 	roMaps         map[string]bool // constants naming read-only map globals
 	keepProved     bool
